@@ -30,9 +30,7 @@ def replay(pid, path, seed):
     vf.write_ndjson(cases, [rec])
     obs = run.replay(family, cases=cases, name="replay", jobs=1)
     verdicts = run.validate(module, obs, chunks=1)
-    why = set(verdicts[1]["why"])
-    if relevant is not None:
-        why &= set(relevant)
+    why = core.filter_why(verdicts[1]["why"], relevant)
     o = vf.read_ndjson(obs)[0]
     o["_why"] = sorted(why)
     print(json.dumps(dict(observed=o["obs"], rejected_conjuncts=sorted(why)), indent=1)[:6000])
@@ -58,7 +56,7 @@ def c17(tier, seed):
     key = lambda r: json.dumps([r["x"], r["y"], r.get("shared", False)], sort_keys=True)
     nontriv = lambda r: r["x"]["k"] not in ("num", "str", "bool", "time") and r["y"]["k"] not in ("num", "str", "bool", "time")
     # Mode A + B: all ordered pairs of depth<=1 types; patterns x ground instances
-    sets = [("pairs", 2 if thorough else 1), ("pp", 1), ("patterns", 1)]
+    sets = [("pairs", 2 if thorough else 1), ("pp", 1), ("patterns", 2 if thorough else 1)]
     base = 0
     for mode, size in sets:
         cases, n = run.generate("Gen_Types", "Gen_Types.cfg", mode=mode, size=size, idbase=base)
@@ -72,7 +70,7 @@ def c17(tier, seed):
     verdicts = run.validate("Trace_Types", obs)
     run.triage("unify", "Trace_Types", obs, verdicts, C17_REL, key=key, nontrivial=nontriv)
     run.bounds = dict(pairs="all ordered pairs of depth<=1 types over %d atoms" % (8 if thorough else 5),
-                      patterns="all 2-tuples of depth<=1 patterns over {num,'a,'b} x all 2-tuples over 11 ground types",
+                      patterns="all 2-tuples of depth<=1 patterns over {num,'a,'b} x all 2-tuples over %d ground types; pp: all 2-tuples over 8 patterns on both sides" % (11 if thorough else 6),
                       explore="%d seeded pairs of depth<=3 (instances, mutated instances, shared variables, 1/4 with shared sub-term pointers)" % n)
     return finish(run, "model_checking",
                   "cases: TLC enumerates the type-pair universes (each state one pair, laws checked as invariants) "
@@ -160,11 +158,73 @@ def eval_prop(pid, quick_modes, thorough_modes, quick_explore=0, thorough_explor
 G = ("Gen_Eval", "Gen_Eval.cfg")
 U1S, U1F, U2 = G + ("u1", 1), G + ("u1", 2), G + ("u2", 1)
 OBJS, PARTIAL, LAZY, OPT = G + ("objs", 1), G + ("partial", 1), G + ("lazy", 1), G + ("opt", 1)
+PARTIAL2 = G + ("partial", 2)
 BI1, BI2 = G + ("builtins", 1), G + ("builtins", 2)
 OVER = G + ("over", 1)
 eval_prop("C01", [OBJS, LAZY, OPT], [OBJS, LAZY, OPT, U1F, U2])
-eval_prop("C02", [PARTIAL, LAZY, OPT], [PARTIAL, LAZY, OPT, OBJS, U1F, U2])
+eval_prop("C02", [PARTIAL, LAZY, OPT], [PARTIAL2, LAZY, OPT, OBJS, U1F, U2])
 eval_prop("C04", [BI1], [BI2, PARTIAL, U1F])
 eval_prop("C05", [U1S, OVER], [U1F, U2, OPT, OBJS, OVER])
 eval_prop("C06", [LAZY, PARTIAL], [LAZY, PARTIAL, U1F, U2])
 eval_prop("C16", [OPT], [OPT, U1F])
+
+
+# ---------------------------------------------------------------------------- bytecode back end (C03, C11)
+VM_REL = {
+    "C11": None,   # filled below: every verify_* conjunct + loops
+    "C03": {"steps", "vmvalue", "vmfail", "vmlog", "vmstuck", "refines", "refineslog", "total", "refused", "accepted"},
+}
+GV = ("Gen_Eval", "Gen_EvalVM.cfg")
+
+
+def vm_rel(pid, why):
+    if pid == "C11":
+        return {w for w in why if w.startswith("verify_") or w in ("loops", "vmstuck")}
+    return set(why) & VM_REL["C03"]
+
+
+def vm_stage(run, pid, modes, explore=0):
+    base = 0
+    rel = lambda why: vm_rel(pid, why)
+    for module, cfg, mode, size in modes:
+        cases, n = run.generate(module, cfg, mode=mode, size=size, idbase=base)
+        base += n
+        obs = run.replay("vm", cases=cases, name="vm_%s_%s" % (mode, size))
+        verdicts = run.validate("Trace_VM", obs, shard=5000)
+        run.triage("vm", "Trace_VM", obs, verdicts, rel, key=eval_key, nontrivial=vm_nontrivial)
+    if explore:
+        obs = run.replay("vm", explore=explore, name="vm_explore", idbase=base)
+        verdicts = run.validate("Trace_VM", obs, shard=5000)
+        run.triage("vm", "Trace_VM", obs, verdicts, rel, key=eval_key, nontrivial=vm_nontrivial)
+
+
+def vm_nontrivial(r):
+    o = r.get("obs", {})
+    return bool(o.get("acc")) and len(o.get("trace", [])) >= 3
+
+
+VM_RULE = ("cases: TLC enumerates bounded program universes (each state one program; VM-refines-big-step, bytecode "
+           "verification and the step bound are invariants of the specification's own compilation scheme and machine); "
+           "every program is compiled by the real compiler and run by the real switch loop with the step hook on; TLC "
+           "verifies the implementation's bytes structurally and replays the recorded instruction trace on the "
+           "specification's machine. distinct = distinct programs; non-trivial = accepted and at least 3 executed instructions")
+
+
+def vm_prop(pid, quick_modes, thorough_modes):
+    def fn(tier, seed):
+        run = Run(pid, tier, seed)
+        modes = thorough_modes if tier == "thorough" else quick_modes
+        vm_stage(run, pid, modes)
+        if pid == "C03":
+            # the four back ends against each other and the specification (values, failures, logs)
+            eval_stage(run, pid, [m[:1] + ("Gen_Eval.cfg",) + m[2:] for m in modes], relevant=EVAL_REL["C03"])
+        run.bounds = dict(universes=[dict(root=m[0], mode=m[2], size=m[3]) for m in modes])
+        return finish(run, "model_checking", VM_RULE, assumptions=EVAL_ASSUME)
+    PROPS[pid] = fn
+    REPLAY[pid] = ("vm", "Trace_VM", lambda why: vm_rel(pid, why))
+
+
+vm_prop("C11", [GV + ("bc", 1), GV + ("lazy", 1), GV + ("partial", 1)],
+        [GV + ("bc", 1), GV + ("lazy", 1), GV + ("partial", 2), GV + ("objs", 1), GV + ("opt", 1), GV + ("builtins", 2), GV + ("u1", 2)])
+vm_prop("C03", [GV + ("bc", 1), GV + ("lazy", 1), GV + ("partial", 1), GV + ("over", 1)],
+        [GV + ("bc", 1), GV + ("lazy", 1), GV + ("partial", 2), GV + ("over", 1), GV + ("objs", 1), GV + ("builtins", 2), GV + ("u1", 2), GV + ("u2", 1)])
